@@ -35,7 +35,23 @@ def base_defs():
             space.bind_def(3, 2, 2, order=0, sensors_shape=(2, 1, 3)),
             space.bind_def(3, 0, 1, order=0, sensors_shape=(3, 1)),
             space.bind_def(2, 2, 0, order=0, sensors_shape=(1, 2)),
-            space.bind_def(3, 0, 0, order=0, sensors_shape=(2,))]
+            space.bind_def(3, 0, 0, order=0, sensors_shape=(2,)),
+            turn_rate_def(),
+            space.bind_def(5, 3, 3, order=0, sensors_shape=(3, 1), tag="-wide")]
+
+
+def turn_rate_def():
+    """5 states, 25-entry process Jacobian with sin/cos pairs of equal cost sharing sub-expressions (blocks of > 16 statements)"""
+    S, DT, add, mul, fn, C = space.S, space.DT, space.add, space.mul, space.fn, space.C
+    px, py, th, v, w, a, al = S("px"), S("py"), S("th"), S("v"), S("w"), S("a"), S("al")
+    model = [["px", add(px, mul(mul(v, DT), fn("cos", add(th, mul(w, DT)))))],
+             ["py", add(py, mul(mul(v, DT), fn("sin", add(th, mul(w, DT)))))],
+             ["th", add(th, mul(w, DT))], ["v", add(v, mul(a, DT))], ["w", add(w, mul(al, DT))]]
+    sensors = [["radar", [["rng", add(mul(px, px), mul(py, py))], ["brg", fn("atan", mul(py, fn("cos", th)))]]],
+               ["gps", [["e", add(px, mul(C(1, 2), fn("sin", th)))], ["n", add(py, mul(C(1, 2), fn("cos", th)))]]]]
+    snoise = [["gps", [["n", 0.5], ["e", 0.25]]], ["radar", [["brg", 0.125], ["rng", 2.0]]]]
+    return space.mkdef("turnrate5", ["px", "py", "th", "v", "w"], ["a", "al"], [], model, [], [["al", 0.5], ["a", 0.25]], sensors, snoise)
+
 
 
 def variant(d, vi, perm):
@@ -66,6 +82,8 @@ def variants(d, tier):
     perms = list(itertools.permutations(range(len(st))))
     out = []
     flagsets = [0, 63, 21, 42, 36, 27] if tier == "quick" else [0, 63, 21, 42, 36, 27, 7, 56, 33, 30, 45, 18]
+    if tier == "quick" and len(st) >= 5:
+        flagsets = [0, 63, 21]  # the two large definitions are expensive to generate: three variants each in the quick tier
     for i, fl in enumerate(flagsets):
         out.append((f"p{i % len(perms)}f{fl}", variant(d, fl, perms[i % len(perms)])))
     if tier == "thorough":
